@@ -159,7 +159,7 @@ impl<'a, R: BufRead> LogCat2DltMsgIterator<'a, R> {
         );
         // return a DltMessage with the LOG INFO APID incl. the BusMapping name
         let index = self.index;
-        self.index += 1;
+        self.index = self.index.wrapping_add(1); // the last msg can have index MAX
         Some(DltMessage {
             index,
             reception_time_us,
@@ -343,7 +343,7 @@ where
                         };
 
                         let index = self.index;
-                        self.index += 1;
+                        self.index = self.index.wrapping_add(1); // the last msg can have index MAX
                         let payload = vec![];
 
                         let mtin: u8 = log_level as u8;
@@ -446,7 +446,7 @@ where
                             };
 
                             let index = self.index;
-                            self.index += 1;
+                            self.index = self.index.wrapping_add(1); // the last msg can have index MAX
                             let payload = vec![];
 
                             let mtin: u8 = log_level as u8;
